@@ -309,10 +309,10 @@ Example C01_write_read_needs_line_bound :
   read_srt (render_eol [CR; LF] (lines (srt_bytes (a_cue 47)))) = Ok (renumber_truncate (a_cue 47)).
 Proof. exact write_read_needs_line_bound. Qed.
 (* ---- the model's literals are the constants of the Go source (Proofs/ConstTie.v, Gen/Consts.v regenerated from the
-   repository on every run by tools/genconsts): every SubRip keyword, separator, tag and name the model spells out equals the
-   package-level constant, struct tag or bidirectional-map entry of the source, or occurs among the string literals of
-   the function the model transcribes.  A closed boolean computed by the kernel. ---- *)
-From Astisub Require Proofs.ConstTie.
-Theorem C01_constants_from_source : ConstTie.all ConstTie.SrtTie.ties = true.
-Proof. exact ConstTie.SrtTie.consts_from_source. Qed.
+   repository on every run by tools/genconsts): the SubRip separators, keywords and names the model spells out equal the
+   NAMED package-level constants, struct tags and bidirectional-map entries of the source (literals inside function bodies and
+   regexp patterns are deliberately not tied: see Proofs/ConstTie.v).  A closed boolean computed by the kernel. ---- *)
+From Astisub Require Proofs.ConstTie Proofs.ConstTieSrt.
+Theorem C01_constants_from_source : ConstTie.all ConstTieSrt.SrtTie.ties = true.
+Proof. exact ConstTieSrt.SrtTie.consts_from_source. Qed.
 Print Assumptions C01_constants_from_source.
